@@ -1,5 +1,5 @@
 (* C05 - only admins change roster or group data; proposals never take effect by themselves.  Statements only. *)
-From MDK Require Import Base.Prelude Base.AMap Mdk.Engine Mdk.EngineSpec Mdk.Authz Mdk.EngineProofs Mdk.EngineProofs2.
+From MDK Require Import Base.Prelude Base.AMap Mdk.Engine Mdk.EngineSpec Mdk.Authz Mdk.EngineProofs Mdk.EngineProofs2 Mdk.EngineProofs5.
 
 (* the whitelist: a commit accepted from a non-admin consists of Update proposals of the committer only, with at least one
    update signal - whatever the (unbounded) proposal list contains *)
@@ -48,3 +48,21 @@ Theorem C05_identity_change_commit_frame : forall c e,
   rollbacks (fst (deliver c e)) = rollbacks c -> gstate (fst (deliver c e)) = gstate c.
 Proof. exact identity_change_commit_frame. Qed.
 Print Assumptions C05_identity_change_commit_frame.
+
+(* "the only automatic case being an admin committing a member's own request to leave": a proposal is auto-committed exactly
+   when the receiver is an admin with no commit of its own pending AND the proposal removes nobody but its proposer; the commit
+   created removes the proposer only; a Remove proposal naming another member is queued by every receiver and creates nothing *)
+Theorem C05_auto_commit_iff : forall c e r,
+  existsb (N.eqb (100000 + e_id e)) (k_seen (kc c)) = false ->
+  (snd (leave_here c e r) = RAuto <-> is_admin c = true /\ k_pending (kc c) = None /\ self_remove e = true).
+Proof. exact auto_commit_iff. Qed.
+Print Assumptions C05_auto_commit_iff.
+Theorem C05_auto_commit_removes_proposer : forall c e r,
+  snd (leave_here c e r) = RAuto -> exists id, k_pending (kc (fst (leave_here c e r))) = Some (id, 0, [e_author e]).
+Proof. exact auto_commit_removes_proposer. Qed.
+Print Assumptions C05_auto_commit_removes_proposer.
+Theorem C05_third_party_remove_never_auto : forall c e r,
+  self_remove e = false ->
+  snd (leave_here c e r) <> RAuto /\ k_pending (kc (fst (leave_here c e r))) = k_pending (kc c).
+Proof. exact third_party_remove_never_auto. Qed.
+Print Assumptions C05_third_party_remove_never_auto.
